@@ -10,6 +10,10 @@ xml = os.path.join(out, "junit.xml")
 env = dict(os.environ)
 env.pop("QLASSKIT_VERIF", None)
 cmd = base["cmd"].replace("<file>", xml)
+repo = os.environ.get("QV_REPO")
+if repo:  # the author's own mutation tests on a scratch copy
+    cmd = cmd.replace("cd /repo", f"cd {repo}")
+    env["PYTHONPATH"] = repo
 r = subprocess.run(cmd, shell=True, env=env, capture_output=True, text=True)
 passed = set()
 for tc in ET.parse(xml).getroot().iter("testcase"):
